@@ -48,7 +48,7 @@ func (s *sgen) sp() string         { return s.g.sp() }
 
 var plainTagVals = []string{"b", "app1", "1.2.3.4", "x-y", "d_e", "v:1"}
 
-var delicateTagVals = []string{`"trail "`, `" lead"`, `" both "`, `"x,y"`, `"a=b"`, `""`, `"x}"`, `"}"`, "`b q`", "`x `", `"a b"`, `" "`, "\"`bq\"", `"{x"`}
+var delicateTagVals = []string{`"C:\\logs\\"`, `"x\\\\"`, `"\\"`, `"a\\b"`, `"trail "`, `" lead"`, `" both "`, `"x,y"`, `"a=b"`, `""`, `"x}"`, `"}"`, "`b q`", "`x `", `"a b"`, `" "`, "\"`bq\"", `"{x"`}
 
 // a {tags} token; plain = values the tag line printer is known to print re-parsably (C08)
 func (s *sgen) tags(plain bool) string {
